@@ -3,10 +3,10 @@ annotations that agree with the (simple) types of the core fragment."""
 import copy
 
 SIG_RET = {"counter": "N", "lag": "N", "acc7": "N", "pacc": "P", "dl": "N", "nest": "N", "dbl": "N", "apply": "N",
-           "mk": "F", "swap": "P"}
+           "mk": "F", "swap": "P", "pick": "N", "mkr": "R", "sumto": "N"}
 SIG_ARGS = {"counter": ["N"], "lag": ["N"], "acc7": ["N"], "pacc": ["N"], "dl": ["N"], "nest": ["N"], "dbl": ["N"],
-            "apply": ["F", "N"], "mk": ["N"], "swap": ["P"], "f": ["N"]}
-TY = {"N": "float", "P": "(float,float)", "F": "(float)->float"}
+            "apply": ["F", "N"], "mk": ["N"], "swap": ["P"], "f": ["N"], "pick": ["R"], "mkr": ["N"], "sumto": ["N"]}
+TY = {"N": "float", "P": "(float,float)", "F": "(float)->float", "R": "{p:float, q:float}", "A": "[float]"}
 
 
 def rename_expr(e, s):
@@ -24,6 +24,13 @@ def rename_expr(e, s):
         e["ps"] = [s.get(x, x) for x in e["ps"]]
     if k == "call":
         e["f"] = s.get(e["f"], e["f"])
+    # field names are user-chosen identifiers as well
+    if k in ("fld", "asgf"):
+        e["n"] = s.get(e["n"], e["n"])
+    if k == "asgf":
+        e["x"] = s.get(e["x"], e["x"])
+    if k in ("rec", "recupd"):
+        e["fs"] = [dict(f, n=s.get(f["n"], f["n"])) for f in e["fs"]]
     return e
 
 
@@ -101,6 +108,11 @@ def user_names(prog):
                 if e.get("k") == "lam":
                     for x in e["ps"]:
                         add(x)
+                if e.get("k") in ("fld", "asgf"):
+                    add(e["n"])
+                if e.get("k") in ("rec", "recupd"):
+                    for f_ in e["fs"]:
+                        add(f_["n"])
                 for v in e.values():
                     walk(v)
         walk(d["b"])
@@ -112,7 +124,12 @@ def user_names(prog):
 def rename_prog(prog, sigma):
     s = {k: v for k, v in sigma.items() if k != "dsp"}
     out = copy.deepcopy(prog)
-    out["fns"] = {s.get(f, f): dict(d, ps=[s.get(p, p) for p in d["ps"]], b=rename_expr(d["b"], s))
+    import re
+
+    def rty(t):     # identifiers inside a type annotation (field names of record types)
+        return re.sub(r"[A-Za-z_][A-Za-z_0-9]*", lambda m: m.group(0) if m.group(0) == "float" else s.get(m.group(0), m.group(0)), t) if t else t
+    out["fns"] = {s.get(f, f): dict(d, ps=[s.get(p, p) for p in d["ps"]], b=rename_expr(d["b"], s),
+                                    **({"pty": [rty(t) for t in d["pty"]]} if d.get("pty") else {}))
                   for f, d in prog["fns"].items()}
     out["globals"] = [{"x": s.get(g["x"], g["x"]), "a": rename_expr(g["a"], s)} for g in prog.get("globals", [])]
     return out
@@ -128,6 +145,14 @@ def typeof(e, env):
         return env.get(e["x"], "F" if e["x"] in SIG_RET else "N")
     if k == "tup":
         return "P"
+    if k in ("rec", "recupd"):
+        return "R"
+    if k == "arr":
+        return "A"
+    if k == "match":
+        return typeof(e["d"], env)
+    if k == "asgf":
+        return typeof(e["b"], env)
     if k == "lam":
         return "F"
     if k == "call":
